@@ -97,6 +97,7 @@ type outPack struct {
 }
 
 type world struct {
+	sameName bool // every collection is called "docs" (callers give each its own database)
 	rid     string
 	taskID  string
 	mgr     api.ChannelManager
@@ -278,6 +279,9 @@ func tgtPChan(i int) string { return fmt.Sprintf("tgt-dml_%d", i) }
 // makes it visible downstream (unless absent is set).
 func (w *world) addCollection(idx int, db string, srcIdx, tgtIdx []int, parts []*partDef, absentDownstream bool) *collDef {
 	c := &collDef{idx: idx, id: int64(100 + idx), tid: int64(9000 + 7*idx), name: fmt.Sprintf("coll%d", idx), db: db, parts: parts}
+	if w.sameName {
+		c.name = "docs" // same-named collections of different databases
+	}
 	for _, p := range parts {
 		if p.sid == 0 {
 			p.sid = c.id*100 + int64(len(p.name))
